@@ -107,15 +107,19 @@ def identEscape (i : Inp) : Res Char :=
 def nmstart (i : Inp) : Res Char := match nmstartChar i with | some r => some r | none => identEscape i
 def nmchar (i : Inp) : Res Char := match nmcharChar i with | some r => some r | none => identEscape i
 
-def parseIdent (text : Inp) : Res String :=
-  let rest := skipWs text
-  let (rest, dash) := match rest with | '-' :: r => (r, true) | _ => (rest, false)
+/-- an optional leading `-` of an identifier -/
+def stripDash (i : Inp) : Inp × Bool := match i with | '-' :: r => (r, true) | _ => (i, false)
+
+def identBody (dash : Bool) (rest : Inp) : Res String :=
   match nmstart rest with
   | none => none
   | some (rest, st) =>
     match many0 nmchar rest with
     | none => none
     | some (rest, cs) => some (rest, String.ofList ((if dash then ['-'] else []) ++ [st] ++ cs))
+
+def parseIdent (text : Inp) : Res String :=
+  identBody (stripDash (skipWs text)).2 (stripDash (skipWs text)).1
 
 def parseIdentString (text : Inp) : Res String :=
   (many1 nmchar (skipWs text)).map fun r => (r.1, String.ofList r.2)
@@ -130,15 +134,18 @@ deriving Repr, DecidableEq, Inhabited
 
 def digits (i : Inp) : Inp × Inp := (i.takeWhile isDigit, i.dropWhile isDigit)
 
-/-- parse_number, returning only the rest (the value is re-read from the recognised slice) -/
-def parseNumberRest (text : Inp) : Option Inp :=
-  let rest := skipWs text
-  let rest := match rest with | '-' :: r => r | '+' :: r => r | _ => rest
-  let (ds, r1) := digits rest
-  if !ds.isEmpty then some r1            -- parse_integer wins in `alt`
-  else match r1 with                     -- parse_decimal: digit0 "." digit1
-    | '.' :: r2 => let (fs, r3) := digits r2; if fs.isEmpty then none else some r3
+/-- an optional sign of a number -/
+def stripSign (i : Inp) : Inp := match i with | '-' :: r => r | '+' :: r => r | _ => i
+
+/-- integer (`digit1`, which wins in `alt`) or decimal (`digit0 "." digit1`) -/
+def numberRestGo (rest : Inp) : Option Inp :=
+  if !(rest.takeWhile isDigit).isEmpty then some (rest.dropWhile isDigit)
+  else match rest.dropWhile isDigit with
+    | '.' :: r2 => if (r2.takeWhile isDigit).isEmpty then none else some (r2.dropWhile isDigit)
     | _ => none
+
+/-- parse_number, returning only the rest (the value is re-read from the recognised slice) -/
+def parseNumberRest (text : Inp) : Option Inp := numberRestGo (stripSign (skipWs text))
 
 def parseNumericToken (text : Inp) : Res Tok :=
   match parseNumberRest text with
@@ -172,38 +179,40 @@ def stringGo (endc : Char) : Inp → List Char → Inp × Tok
 
 def isIdentStart (c : Char) : Bool := isAlpha c || c = '_' || c.toNat ≥ 0x81
 
+/-- the token that starts with `c` (`rest = c :: r`) -/
+def tokenBody (c : Char) (r rest : Inp) : Res Tok :=
+  if c = '"' || c = '\'' then some (stringGo c r [])
+  else if c = '#' then (match parseIdentString r with | some (r2, id) => some (r2, .hash id) | none => some (r, .delim '#'))
+  else if c = ';' then some (r, .semicolon)
+  else if c = '(' then some (r, .openRound)
+  else if c = ')' then some (r, .closeRound)
+  else if c = '+' then (match parseNumericToken r with | some x => some x | none => some (r, .delim '+'))
+  else if c = ',' then some (r, .comma)
+  else if c = '-' then
+    (match parseNumericToken rest with
+     | some x => some x
+     | none => match rest with
+       | '-' :: '-' :: '>' :: r3 => some (r3, .cdc)
+       | _ => match parseIdentLike rest with
+         | some x => some x
+         | none => some (r, .delim '-'))
+  else if c = '.' then (match parseNumericToken rest with | some x => some x | none => some (r, .delim '.'))
+  else if c = ':' then some (r, .colon)
+  else if c = '<' then (match rest with | '<' :: '!' :: '-' :: '-' :: r4 => some (r4, .cdo) | _ => some (r, .delim '<'))
+  else if c = '@' then (match parseIdent rest with | some (r2, id) => some (r2, .atKeyword id) | none => some (r, .delim '@'))
+  else if c = '[' then some (r, .openSquare)
+  else if c = '\\' then (match parseIdentLike rest with | some x => some x | none => some (r, .delim '\\'))
+  else if c = ']' then some (r, .closeSquare)
+  else if c = '{' then some (r, .openBrace)
+  else if c = '}' then some (r, .closeBrace)
+  else if isIdentStart c then parseIdentLike rest
+  else if isDigit c then parseNumericToken rest
+  else some (r, .delim c)
+
 def parseToken (text : Inp) : Res Tok :=
-  let rest := skipWs text
-  match rest with
+  match skipWs text with
   | [] => none
-  | c :: r =>
-    if c = '"' || c = '\'' then some (stringGo c r [])
-    else if c = '#' then (match parseIdentString r with | some (r2, id) => some (r2, .hash id) | none => some (r, .delim '#'))
-    else if c = ';' then some (r, .semicolon)
-    else if c = '(' then some (r, .openRound)
-    else if c = ')' then some (r, .closeRound)
-    else if c = '+' then (match parseNumericToken r with | some x => some x | none => some (r, .delim '+'))
-    else if c = ',' then some (r, .comma)
-    else if c = '-' then
-      (match parseNumericToken rest with
-       | some x => some x
-       | none => match rest with
-         | '-' :: '-' :: '>' :: r3 => some (r3, .cdc)
-         | _ => match parseIdentLike rest with
-           | some x => some x
-           | none => some (r, .delim '-'))
-    else if c = '.' then (match parseNumericToken rest with | some x => some x | none => some (r, .delim '.'))
-    else if c = ':' then some (r, .colon)
-    else if c = '<' then (match rest with | '<' :: '!' :: '-' :: '-' :: r4 => some (r4, .cdo) | _ => some (r, .delim '<'))
-    else if c = '@' then (match parseIdent rest with | some (r2, id) => some (r2, .atKeyword id) | none => some (r, .delim '@'))
-    else if c = '[' then some (r, .openSquare)
-    else if c = '\\' then (match parseIdentLike rest with | some x => some x | none => some (r, .delim '\\'))
-    else if c = ']' then some (r, .closeSquare)
-    else if c = '{' then some (r, .openBrace)
-    else if c = '}' then some (r, .closeBrace)
-    else if isIdentStart c then parseIdentLike rest
-    else if isDigit c then parseNumericToken rest
-    else some (r, .delim c)
+  | c :: r => tokenBody c r (c :: r)
 
 def parseTokenNotSemicolon (text : Inp) : Res Tok :=
   match parseToken text with
